@@ -48,6 +48,9 @@ var mustCallTable = []mustCallEntry{
 	{Pkg: pkgSqlite, Recv: "SqliteStore", Func: "Flush", Calls: []string{"worker.Flush"}, Why: "C11/C12: the tick's flush reaches the store worker, which otherwise waits for a full batch"},
 	{Pkg: pkgPostgres, Recv: "PostgresStore", Func: "Flush", Calls: []string{"worker.Flush"}, Exists: true, Why: "C11/C12: the tick's flush reaches every store worker, which otherwise waits for a full batch"},
 	{Pkg: pkgIAio, Recv: "aio", Func: "Flush", Calls: []string{"subsystem.Flush"}, Exists: true, Why: "C11/C12: the tick's flush reaches every subsystem"},
+	{Pkg: pkgHttpPlugin, Recv: "Http", Func: "Stop", Calls: []string{"close(.sq)"}, Why: "C12: stopping a plugin closes its queue so that its workers drain and exit"},
+	{Pkg: pkgPoll, Recv: "Poll", Func: "Stop", Calls: []string{"close(.sq)", "close(.connect)", "close(.disconnect)", "server.Stop"}, Why: "C18: stopping the poll transport closes its queue and, once the server stopped, the connection channels"},
+	{Pkg: pkgGrpc, Recv: "Grpc", Func: "Stop", Calls: []string{"server.GracefulStop"}, Why: "C12: in-flight gRPC requests are answered before the subsystem stops"},
 	{Pkg: pkgSystem, Recv: "System", Func: "AddBackground", Calls: []string{"= append:.background"}, Why: "C11: a registered background coroutine is kept"},
 	{Pkg: pkgIApi, Recv: "api", Func: "AddSubsystem", Calls: []string{"= append:.subsystems"}, Why: "C12: a registered subsystem is kept"},
 	{Pkg: pkgSender, Recv: "SenderWorker", Func: "AddPlugin", Calls: []string{"[]=:.plugins"}, Why: "C19: a registered plugin is kept under its type"},
@@ -261,7 +264,7 @@ func ruleLifecycleCalls(c *Ctx) {
 		c.check(ok, key, where, strings.Join(e.Calls, ", ")+" on every path ("+e.Why+")", detail+" ("+e.Why+")")
 	}
 	c.count("lifecycle_functions", n)
-	c.floor("lifecycle functions with must-call obligations", n, 21)
+	c.floor("lifecycle functions with must-call obligations", n, 24)
 }
 
 
